@@ -1,18 +1,18 @@
 (** Top-level consequences of the simulation: C01 (transparency, computed
     once, canonical binding) and C05 (failed evaluations). *)
 From Coq Require Import List ZArith Bool Arith Lia.
-From MX Require Import Exec.Model Exec.Spec Exec.Basics Exec.SpecMono Exec.Sim.
+From MX Require Import Exec.Model Exec.Spec Exec.Basics Exec.SpecMono Exec.Masks Exec.Sim.
 Import ListNotations.
 
 (** * eval_top *)
 Lemma eval_top_sim fuel st i r st' :
   eval_top fuel st i = (r, st') -> r <> OutOfFuel -> Inv st ->
-  Inv st' /\ frame st st' /\ agrees r (fun g => spec_eval g st i).
+  Inv st' /\ frame st st' /\ (s_masks st' = s_masks st -> agrees r (fun g => spec_eval g st i)).
 Proof.
   intros H Hr HI. unfold eval_top in H.
   destruct (lookup_cell (s_cells st) (fst i)) as [cl|] eqn:El.
   - destruct (if cl_cached cl then lookup_data (s_data st) i else None) as [v|] eqn:Eh.
-    + inversion H; subst. split; [assumption|]. split; [apply frame_refl|].
+    + inversion H; subst. split; [assumption|]. split; [apply frame_refl|]. intros _.
       destruct (cl_cached cl) eqn:Ec; [|discriminate].
       destruct HI as (I1 & I2). destruct (I2 i v Eh) as [Hm|(g & Hg)].
       * exists 1. unfold spec_eval. simpl. unfold defs_of; simpl. rewrite El, Ec.
@@ -29,7 +29,7 @@ Proof.
         inversion H; subst. split; [exact I1|]. split; [|exact A1].
         destruct F1 as (a & b & c & d). repeat split; assumption.
       * inversion H; subst. congruence.
-  - inversion H; subst. split; [assumption|]. split; [apply frame_refl|].
+  - inversion H; subst. split; [assumption|]. split; [apply frame_refl|]. intros _.
     right. exists 1. unfold spec_eval; simpl. unfold defs_of; simpl. now rewrite El.
 Qed.
 
@@ -42,11 +42,12 @@ Proof. split; intros i; simpl; intros; discriminate. Qed.
 Lemma step_eval_Inv fuel st i x st' :
   step fuel st (OpEval i) = (x, st') -> x <> OFuel -> Inv st ->
   Inv st' /\ frame st st' /\
-  match x with
-  | OVal v => exists g, spec_eval g st i = Val v
-  | OErr k => k = KDeep \/ exists g, spec_eval g st i = Err k
-  | _ => False
-  end.
+  (s_masks st' = s_masks st ->
+   match x with
+   | OVal v => exists g, spec_eval g st i = Val v
+   | OErr k => k = KDeep \/ exists g, spec_eval g st i = Err k
+   | _ => False
+   end).
 Proof.
   simpl. destruct (eval_top fuel st i) as [[v|k|] st1] eqn:E; intros H Hx HI; inversion H; subst.
   - destruct (eval_top_sim _ _ _ _ _ E ltac:(discriminate) HI) as (A & B & C). auto.
@@ -88,16 +89,16 @@ Qed.
 Theorem transparent fuel cells refs maxd ops xs st i x st' :
   forallb is_eval ops = true ->
   run fuel (init cells refs maxd) ops = (xs, st) -> no_fuel_out xs ->
-  step fuel st (OpEval i) = (x, st') -> x <> OFuel ->
+  step fuel st (OpEval i) = (x, st') -> x <> OFuel -> s_masks st' = s_masks st ->
   match x with
   | OVal v => exists g, sp_node g (cells, refs) [] i = Val v
   | OErr k => k = KDeep \/ exists g, sp_node g (cells, refs) [] i = Err k
   | _ => False
   end.
 Proof.
-  intros Hall Hrun Hnf Hstep Hx.
+  intros Hall Hrun Hnf Hstep Hx Hmk.
   destruct (run_evals_Inv _ _ _ _ _ Hall Hrun Hnf (Inv_init cells refs maxd)) as (I1 & F1).
-  destruct (step_eval_Inv _ _ _ _ _ Hstep Hx I1) as (_ & _ & A).
+  destruct (step_eval_Inv _ _ _ _ _ Hstep Hx I1) as (_ & _ & A). specialize (A Hmk).
   destruct (frame_defs _ _ F1) as (D1 & P1).
   unfold spec_eval in A. rewrite D1, P1 in A. exact A.
 Qed.
@@ -241,7 +242,7 @@ Proof.
   - intros st args locs whole rest idx r st' ln j H Hr HI Hj.
     destruct rest as [|s more]; simpl in H.
     + inversion H; subst. exists []. split; [reflexivity|intros []].
-    + destruct s as [e|e h].
+    + destruct s as [e|e h|e fc].
       * destruct (eval_expr f st args locs (stmt_line whole idx) e) as [[v|k|] st1] eqn:E1.
         -- destruct (SE _ _ _ _ _ _ _ E1 ltac:(discriminate) HI) as (I1 & F1 & _).
            pose proof (IHe _ _ _ _ _ _ _ j E1 ltac:(discriminate) HI Hj) as L1.
@@ -274,6 +275,41 @@ Proof.
                  inversion H; subst. seq_log L1 L2.
               ** inversion H; subst; congruence.
            ++ inversion H; subst. exact L1.
+        -- inversion H; subst; congruence.
+      * destruct (eval_expr f st args locs (stmt_line whole idx + 1) e) as [[v|k|] st1] eqn:E1.
+        -- destruct (SE _ _ _ _ _ _ _ E1 ltac:(discriminate) HI) as (I1 & F1 & _).
+           pose proof (IHe _ _ _ _ _ _ _ j E1 ltac:(discriminate) HI Hj) as L1.
+           pose proof (held_frame _ _ _ F1 Hj) as Hj1.
+           destruct (eval_expr f st1 args locs (stmt_line whole idx + 3) fc) as [[w|k2|] st2] eqn:E2.
+           ++ destruct (SE _ _ _ _ _ _ _ E2 ltac:(discriminate) I1) as (I2 & F2 & _).
+              pose proof (IHe _ _ _ _ _ _ _ j E2 ltac:(discriminate) I1 Hj1) as L2.
+              pose proof (IHb _ _ _ _ _ _ _ _ _ j H Hr I2 (held_frame _ _ _ F2 Hj1)) as L3.
+              destruct L1 as (l1 & L1a & L1b); destruct L2 as (l2 & L2a & L2b);
+                destruct L3 as (l3 & L3a & L3b).
+              exists (l3 ++ l2 ++ l1). split.
+              ** rewrite L3a, L2a, L1a. now rewrite !app_assoc.
+              ** intros Hin. apply in_app_or in Hin as [Hin|Hin]; [tauto|].
+                 apply in_app_or in Hin; tauto.
+           ++ pose proof (IHe _ _ _ _ _ _ _ j E2 ltac:(discriminate) I1 Hj1) as L2.
+              inversion H; subst. seq_log L1 L2.
+           ++ inversion H; subst; congruence.
+        -- destruct (SE _ _ _ _ _ _ _ E1 ltac:(discriminate) HI) as (I1 & F1 & _).
+           pose proof (IHe _ _ _ _ _ _ _ j E1 ltac:(discriminate) HI Hj) as L1.
+           set (st1' := upd_rolled st1 []) in *.
+           assert (I1' : Inv st1') by exact I1.
+           assert (Hj1' : held st1' j) by exact (held_frame _ _ _ F1 Hj).
+           destruct (eval_expr f st1' args locs (stmt_line whole idx + 3) fc) as [[w|k2|] st2] eqn:E2.
+           ++ pose proof (IHe _ _ _ _ _ _ _ j E2 ltac:(discriminate) I1' Hj1') as L2.
+              change (s_log st1') with (s_log st1) in L2.
+              inversion H; subst.
+              change (s_log (upd_rolled st2 (s_rolled st1))) with (s_log st2). seq_log L1 L2.
+           ++ pose proof (IHe _ _ _ _ _ _ _ j E2 ltac:(discriminate) I1' Hj1') as L2.
+              change (s_log st1') with (s_log st1) in L2.
+              inversion H; subst.
+              assert (Hl : s_log (if ekind_eqb k KDeep then upd_masks st2 (S (s_masks st2)) else st2) = s_log st2)
+                by (destruct (ekind_eqb k KDeep); reflexivity).
+              rewrite Hl. seq_log L1 L2.
+           ++ inversion H; subst; congruence.
         -- inversion H; subst; congruence.
 Qed.
 
@@ -329,7 +365,7 @@ Theorem failed_eval_consistent fuel st i k st' :
   (forall j v, lookup_data (s_data st) j = Some v -> lookup_data (s_data st') j = Some v) /\
   s_cells st' = s_cells st /\ s_refs st' = s_refs st /\ s_inputs st' = s_inputs st /\
   (exists chain, s_err st' = Some (k, chain)) /\ s_rolled st' = [] /\
-  (k = KDeep \/ exists g, spec_eval g st i = Err k).
+  (s_masks st' = s_masks st -> k = KDeep \/ exists g, spec_eval g st i = Err k).
 Proof.
   intros H HI Hc.
   destruct (eval_top_sim _ _ _ _ _ H ltac:(discriminate) HI) as (I1 & (S1 & K1 & M1 & _) & A1).
@@ -346,12 +382,12 @@ Qed.
     failure had not happened: [Inv] holds again, so [eval_top_sim] applies *)
 Corollary retry_after_failure fuel st i k st1 j r st2 :
   eval_top fuel st i = (Err k, st1) -> Inv st -> lookup_cell (s_cells st) (fst i) <> None ->
-  eval_top fuel st1 j = (r, st2) -> r <> OutOfFuel ->
+  eval_top fuel st1 j = (r, st2) -> r <> OutOfFuel -> s_masks st2 = s_masks st1 ->
   agrees r (fun g => spec_eval g st j).
 Proof.
-  intros H HI Hc H2 Hr.
+  intros H HI Hc H2 Hr Hmk.
   destruct (eval_top_sim _ _ _ _ _ H ltac:(discriminate) HI) as (I1 & F1 & _).
-  destruct (eval_top_sim _ _ _ _ _ H2 Hr I1) as (_ & _ & A).
+  destruct (eval_top_sim _ _ _ _ _ H2 Hr I1) as (_ & _ & A). specialize (A Hmk).
   destruct r; simpl in *.
   - destruct A as (g & A). exists g. now rewrite <- (spec_eval_frame _ _ g j F1).
   - destruct A as [->|(g & A)]; [now left|right]. exists g. now rewrite <- (spec_eval_frame _ _ g j F1).
